@@ -162,6 +162,104 @@ def run_area(spec):
     if spec.get("partner") and len(lons):
         out["bucket_joint"] = guarded(m_bucket_joint)
 
+    # ---- shared-array histories and memory layouts: one generic runner for all modules on 2-D lon/lat arrays
+    def gf_codes(lo2, la2, swath, nprocs):
+        valid = geo_filter.GridFilter(area, np.ones((h, w), dtype=bool), nprocs=nprocs).get_valid_index(swath)
+        lin = np.zeros(valid.shape, dtype=np.int64)
+        idx = np.arange(h * w, dtype=np.int64).reshape(h, w)
+        stray = np.zeros(valid.shape, dtype=bool)
+        for b in range(max(1, int(h * w - 1).bit_length())):
+            res = geo_filter.GridFilter(area, ((idx >> b) & 1).astype(bool), nprocs=nprocs).get_valid_index(swath)
+            stray |= res & ~valid
+            lin |= res.astype(np.int64) << b
+        return np.where(stray, -2, np.where(valid, lin + 1, 0))
+
+    def run_module(name, lo2, la2, swath, nprocs=1):
+        """call one module on the GIVEN array objects (no copies); results flattened in logical (C) order"""
+        if name == "area":
+            cols, rows = area.get_array_indices_from_lonlat(lo2, la2)
+            return {"cm": ih(np.ma.getmaskarray(cols)), "c": ih(np.ma.getdata(cols)), "rm": ih(np.ma.getmaskarray(rows)), "r": ih(np.ma.getdata(rows))}
+        if name == "grid":
+            rows, cols = grid.get_linesample(lo2, la2, area, nprocs=nprocs)
+            img = grid.get_image_from_lonlats(lo2, la2, area, index_img, fill_value=0, nprocs=nprocs)
+            return {"rows": ih(rows), "cols": ih(cols), "img": ih(img)}
+        if name == "gf":
+            return {"code": ih(gf_codes(lo2, la2, swath, nprocs))}
+        if name == "bucket":
+            br = BucketResampler(area, da.from_array(lo2, chunks=lo2.shape), da.from_array(la2, chunks=la2.shape))
+            return {"xi": ih(br.x_idxs.compute()), "yi": ih(br.y_idxs.compute())}
+        if name == "ll2cr":
+            n, cols, rows = ll2cr(swath, area)
+            return {"cols": fh(cols), "rows": fh(rows), "n": int(n)}
+        raise ValueError(name)
+
+    def logical(k, m):
+        return lons[:k * m].reshape(k, m).copy(), lats[:k * m].reshape(k, m).copy()
+
+    def m_history(hs):
+        """the modules one after another on the SAME lon/lat arrays / the same SwathDefinition; the caller's arrays are
+        compared byte for byte before and after every call"""
+        k, m = hs["shape"]
+        lo2, la2 = logical(k, m)
+        lo2, la2 = np.ascontiguousarray(lo2, dtype=np.float64), np.ascontiguousarray(la2, dtype=np.float64)
+        swath = geometry.SwathDefinition(lo2, la2)
+        steps = []
+        for name in hs["calls"]:
+            before = (lo2.tobytes(), la2.tobytes())
+            try:
+                res = run_module(name, lo2, la2, swath)
+            except Exception as e:
+                res = {"error": "%s: %s" % (type(e).__name__, str(e)[:200])}
+            res["module"] = name
+            res["mutated"] = [nm for nm, b, arr in (("lons", before[0], lo2), ("lats", before[1], la2)) if arr.tobytes() != b]
+            if res["mutated"]:
+                j = next(i for i in range(lo2.size) if lo2.ravel()[i].tobytes() != before[0][8 * i:8 * i + 8] or la2.ravel()[i].tobytes() != before[1][8 * i:8 * i + 8])
+                res["first_changed"] = [j, float(np.frombuffer(before[0], dtype=np.float64)[j]).hex(), float(lo2.ravel()[j]).hex(),
+                                        float(np.frombuffer(before[1], dtype=np.float64)[j]).hex(), float(la2.ravel()[j]).hex()]
+            steps.append(res)
+        return {"steps": steps}
+    if spec.get("history"):
+        out["history"] = guarded(lambda: m_history(spec["history"]))
+
+    def m_layouts(ls):
+        """the same logical 2-D lon/lat arrays in other memory layouts, on the single- and the multi-process path"""
+        k, m = ls["shape"]
+        lo0, la0 = logical(k, m)
+
+        def lay(a0, kind):
+            if kind == "C":
+                return np.ascontiguousarray(a0)
+            if kind == "F":
+                return np.asfortranarray(a0)
+            if kind == "T":
+                return np.ascontiguousarray(a0.T).T
+            if kind == "strided":
+                wide = np.full((k, 2 * m), 12345.0)
+                wide[:, ::2] = a0
+                return wide[:, ::2]
+            if kind == "negstride":
+                return np.ascontiguousarray(a0[::-1, ::-1])[::-1, ::-1]
+            raise ValueError(kind)
+        res = []
+        for kind, name, nprocs in ls["runs"]:
+            lo2, la2 = lay(lo0, kind), lay(la0, kind)
+            assert np.array_equal(lo2, lo0, equal_nan=True) and np.array_equal(la2, la0, equal_nan=True)
+            try:
+                r = run_module(name, lo2, la2, geometry.SwathDefinition(lo2, la2), nprocs=nprocs)
+            except Exception as e:
+                r = {"error": "%s: %s" % (type(e).__name__, str(e)[:200])}
+            if nprocs > 1 and "error" not in r:
+                # the multi-process PROJ construction of this module, on the C-contiguous copy of the same logical arrays
+                from pyresample import _spatial_mp
+                pm = _spatial_mp.Proj_MP(**area.proj_dict) if name == "grid" else _spatial_mp.Proj_MP(area.crs)
+                px, py = pm(np.ascontiguousarray(lo0), np.ascontiguousarray(la0), nprocs=nprocs)
+                r["x"], r["y"] = fh(px), fh(py)
+            r.update({"module": name, "layout": kind, "nprocs": nprocs, "flags": [bool(lo2.flags.c_contiguous), bool(lo2.flags.f_contiguous)]})
+            res.append(r)
+        return {"runs": res}
+    if spec.get("layouts"):
+        out["layouts"] = guarded(lambda: m_layouts(spec["layouts"]))
+
     def m_ll2cr():
         swath = geometry.SwathDefinition(lons.copy().reshape(1, -1), lats.copy().reshape(1, -1))
         t = Transformer.from_crs(swath.crs, area.crs, always_xy=True)
